@@ -220,6 +220,9 @@ func (m *CPU) flush(pc int32) {
 	for _, executeUnit := range m.executeUnits {
 		executeUnit.flush()
 	}
+	// The execute units that were fetching a line are reset: nothing will
+	// deliver it, so the line must not stay marked as being fetched
+	m.memoryManagementUnit.pendings = nil
 	m.decodeBus.Clean()
 	m.controlBus.Clean()
 	m.executeBus.Clean()
